@@ -235,7 +235,22 @@ def _judge(p, cfg, devs, ex, info, dev):
         fi = ev1.index(faults[0])
         established_before = any(e[1] == 'cb' and e[2] == 'link_established' for e in ev1[:fi])
         rx_before = faults[0][3] if len(faults[0]) > 3 else None
-        if established_before:
+        # A close_link that overlaps the handling of the fault (called before the error path delivered anything, or
+        # the fault hit while close_link was running) may be ordered before the fault: the error then finds the
+        # object already DISCONNECTED (disconnected_link_error) - both readings are accepted.
+        overlap = False
+        for ci, e in enumerate(ev1):
+            if e[1] == 'call' and e[2] in ('close_link', 'scf.close_link'):
+                ri = next((j for j in range(ci, len(ev1)) if ev1[j][1] in ('ret', 'raise') and ev1[j][2] == e[2]), len(ev1))
+                first_effect = next((j for j in range(fi, len(ev1)) if ev1[j][1] in ('disc_begin',) or (
+                    ev1[j][1] == 'cb' and ev1[j][2] in ('connection_failed', 'connection_lost', 'disconnected_link_error')
+                    )), len(ev1))
+                if ci <= fi <= ri or fi <= ci <= first_effect:
+                    overlap = True
+        if overlap and 'disconnected_link_error' in names1:
+            if nlost or nfail or (ncalls_close is not None and ndisc != ncalls_close):
+                viol('fault_overlapping_close:inconsistent', 'callbacks %r' % (names1,))
+        elif established_before:
             if nlost != 1:
                 viol('fault_after_first_packet:connection_lost_x%d' % nlost,
                      'link failed after link_established but connection_lost was delivered %d times' % nlost)
